@@ -730,7 +730,7 @@ func TestC08(t *testing.T) {
 	r.Require("suffix_rereads", n/100)
 	r.Require("valid_messages_consumption_checked", n/100)
 	r.Require("value_parser_calls", n/10)
-	r.Require("reused_object_reads", n/4)
+	r.Require("reused_object_reads", n/5)
 	r.Require("split_messages", n/8)
 	r.Require("persistent_error_reads", n/5)
 	r.Require("persistent_error_in_trailer", n/100)
